@@ -232,7 +232,7 @@ def generate(c):
     thorough = c.tier == "thorough"
     ks_q = [1, 2, 7, 8, 15, 16, 30, 31, 32, 33, 47, 48, 52, 53, 61, 62, 63]
     ks64 = list(range(0, 65)) if thorough else ks_q + [64]
-    ks128 = list(range(0, 129, 4 if thorough else 16)) + [31, 33, 63, 65, 127]
+    ks128 = list(range(0, 129, 8 if thorough else 16)) + [31, 33, 63, 65, 127]
     B64 = signed_boundary(64, ks64)
     U64 = unsigned_boundary(64, ks64)
     if thorough:
@@ -243,7 +243,7 @@ def generate(c):
         B64b, U64b = B64, U64
     B128 = signed_boundary(128, ks128)
     U128 = unsigned_boundary(128, ks128)
-    nrand = 20000 if thorough else 2500
+    nrand = 8000 if thorough else 2500
     cases = load_corpus()
     dist = {"corpus": len(cases), "boundary_values_i64": len(B64), "boundary_values_u64": len(U64),
             "boundary_values_i128": len(B128)}
